@@ -361,7 +361,19 @@ def run_call_sequence(cell, g, fails, notes, feats):
     name = cell["likelihood"]
     n = 4
     m, C = util.randn(g, n), util.spd(g, n)
-    dist = MVN(m, C)
+    dg = util.rand(g, n) + 0.3
+
+    def mkdist(rep):
+        """the latent distribution in three covariance representations (a call must not modify the distribution it is given)"""
+        from linear_operator import to_linear_operator
+        from linear_operator.operators import DiagLinearOperator
+        if rep == "tensor":
+            return MVN(m.clone(), C.clone())
+        if rep == "lazy":
+            return MVN(m.clone(), to_linear_operator(C.clone()))
+        return MVN(m.clone(), DiagLinearOperator(dg.clone()))
+
+    COV = {"tensor": C, "lazy": C, "diag": torch.diag(dg)}
     if name == "Bernoulli":
         obs = {"ones": torch.ones(n), "zeros": torch.zeros(n), "01": torch.tensor([0.0, 1.0, 1.0, 0.0]),
                "-1+1": torch.tensor([-1.0, 1.0, 1.0, -1.0]), "all-1": -torch.ones(n)}
@@ -370,10 +382,15 @@ def run_call_sequence(cell, g, fails, notes, feats):
     else:
         obs = {"a": torch.tensor([-0.5, 1.2, 0.3, 2.0]), "b": torch.tensor([1.5, -1.2, 0.0, 0.4]), "c": torch.zeros(n)}
     obs = {k: v.to(F64) for k, v in obs.items()}
-    alphabet = [(meth, k) for meth in ("expected_log_prob", "log_marginal") for k in obs] + [("marginal", None)]
+    first = next(iter(obs))
+    # (method, observations, covariance representation): every method on the tensor-backed distribution; the lazily held ones with one
+    # observation set (their storage is shared with what `variance` / `mean` hand out, so an in-place operation would write through)
+    alphabet = [(meth, k, "tensor") for meth in ("expected_log_prob", "log_marginal") for k in obs] + [("marginal", None, "tensor")]
+    alphabet += [(meth, (first if meth != "marginal" else None), rep) for rep in ("lazy", "diag") for meth in ("marginal", "log_marginal", "expected_log_prob")]
 
-    def call(lik, a):
-        meth, k = a
+    def call(lik, a, dists):
+        meth, k, rep = a
+        dist = dists[rep]
         torch.manual_seed(17)  # the sampling-based marginal of the non-analytic likelihoods draws from the global generator: owned
         with warnings.catch_warnings():
             warnings.simplefilter("ignore")
@@ -383,31 +400,39 @@ def run_call_sequence(cell, g, fails, notes, feats):
             return getattr(lik, meth)(obs[k], dist)
 
     def fresh():
-        return _build_lik(name, PSETS[name][0], ())[0]
+        return _build_lik(name, PSETS[name][0], ()), {rep: mkdist(rep) for rep in COV}
 
     want = {}
     for a in alphabet:
         try:
-            want[a] = call(fresh(), a)
+            (lik, _), dists = fresh()
+            want[a] = call(lik, a, dists)
         except Exception as e:  # judged by the other cells; a call that raises on a fresh instance is not part of the alphabet
             want[a] = None
     alphabet = [a for a in alphabet if want[a] is not None]
     nseq = 0
     for depth in (1, 2, 3):
+        if len(fails) > 8:
+            break
         for seq in itertools.product(alphabet, repeat=depth):
-            lik = fresh()
+            (lik, _), dists = fresh()
             nseq += 1
             for i, a in enumerate(seq):
+                hist = [f"{x[0]}({x[1]},{x[2]})" for x in seq[:i]]
                 try:
-                    got = call(lik, a)
+                    got = call(lik, a, dists)
                 except Exception as e:
-                    _add(fails, "call-sequence", f"{a[0]}({a[1]}) raises after {list(seq[:i])}: {util.exc_str(e)}")
+                    _add(fails, "call-sequence", f"{a[0]}({a[1]},{a[2]}) raises after {hist}: {util.exc_str(e)}")
                     break
-                if i == depth - 1 or True:
-                    if tuple(got.shape) != tuple(want[a].shape) or util.maxerr(got, want[a]) > 1e-12:
-                        _add(fails, "call-sequence", f"{a[0]} on observations '{a[1]}' after the calls {[f'{x[0]}({x[1]})' for x in seq[:i]]} differs from "
-                             f"a fresh instance: err={util.maxerr(got, want[a]) if tuple(got.shape) == tuple(want[a].shape) else float('nan'):.3e}")
-                        break
+                if tuple(got.shape) != tuple(want[a].shape) or util.maxerr(got, want[a]) > 1e-12:
+                    _add(fails, "call-sequence", f"{a[0]} on observations '{a[1]}' ({a[2]} covariance) after the calls {hist} differs from "
+                         f"fresh objects: err={util.maxerr(got, want[a]) if tuple(got.shape) == tuple(want[a].shape) else float('nan'):.3e}")
+                    break
+                dd = dists[a[2]]
+                if util.maxerr(dd.covariance_matrix, COV[a[2]]) > 0 or util.maxerr(dd.mean, m) > 0:
+                    _add(fails, "call-sequence", f"{a[0]} ({a[2]} covariance) modified the distribution it was given: "
+                         f"covariance changed by {util.maxerr(dd.covariance_matrix, COV[a[2]]):.3e}")
+                    break
     notes["sequences"] = nseq
     return nseq
 
